@@ -660,9 +660,26 @@ pub fn run(ctx: &RunCtx, flavor: Flavor) -> Report {
     let base = if public { pub_ip(&mut cfg) } else { priv_ip(100) };
     let b = u32::from(base);
     let n_clients = cfg.usize(2, 4);
+    // an adversarially close second IP: last bit, any single bit, or only bits that BEP42's id
+    // mask (0x030f3fff) ignores
+    let flip: u32 = match cfg.below(4) {
+        0 => 1,
+        1 => 1 << cfg.below(32),
+        2 => {
+            let outside = !0x030f_3fffu32;
+            let x = (cfg.range(1, u32::MAX as u64) as u32) & outside;
+            if x == 0 {
+                0x8000_0000
+            } else {
+                x
+            }
+        }
+        _ => 1 << cfg.below(8),
+    };
+    let close_ip = if Ipv4Addr::from(b ^ flip) == server_ip { Ipv4Addr::from(b ^ 1) } else { Ipv4Addr::from(b ^ flip) };
     let client_addrs: Vec<SocketAddrV4> = vec![
         SocketAddrV4::new(base, 7001),
-        SocketAddrV4::new(Ipv4Addr::from(b ^ 1), 7001),
+        SocketAddrV4::new(close_ip, 7001),
         SocketAddrV4::new(base, 7002),
         SocketAddrV4::new(if public { pub_ip(&mut cfg) } else { priv_ip(5000) }, 7003),
     ][..n_clients]
@@ -743,7 +760,8 @@ pub fn run(ctx: &RunCtx, flavor: Flavor) -> Report {
 
     // ---- object universe
     let keys: Vec<_> = (0..3).map(|i| krpc::signing_key(crate::rng::Rng::new(ctx.seed ^ (i + 77)).bytes(32).try_into().unwrap())).collect();
-    let salts: Vec<Option<Vec<u8>>> = vec![None, Some(b"a".to_vec()), Some(b"bb".to_vec()), Some(vec![b's'; 64])];
+    // the last one, a zero-length salt, has the target of "no salt" but another signable
+    let salts: Vec<Option<Vec<u8>>> = vec![None, Some(b"a".to_vec()), Some(b"bb".to_vec()), Some(vec![b's'; 64]), Some(vec![])];
     let values: Vec<Vec<u8>> = vec![b"v0".to_vec(), b"v1".to_vec(), b"value-two".to_vec(), vec![7u8; 1000]];
     let imm_values: Vec<Vec<u8>> = vec![b"imm0".to_vec(), b"imm1".to_vec(), b"immutable-2".to_vec(), vec![9u8; 1000], vec![]];
     let info_hashes: Vec<Id> = (0..4).map(|_| cfg.id()).collect();
@@ -794,6 +812,8 @@ pub fn run(ctx: &RunCtx, flavor: Flavor) -> Report {
         }
     };
 
+    let keepalive = flavor == Flavor::C15 && cfg.chance(1, 4);
+    let mut keepalives = 0u64;
     for i in 0..depth {
         let mut r = Rng::new(crate::rng::key(ctx.seed, &[crate::rng::tag("op"), i as u64]));
         // time gap before this op
@@ -804,12 +824,31 @@ pub fn run(ctx: &RunCtx, flavor: Flavor) -> Report {
             (_, 1) => r.range(600, 1300) * SEC,
             _ => r.range(5, 1500) * MS,
         };
+        // C15, 1 run in 4: the node "keeps receiving requests" during long gaps - but only pings and
+        // find_nodes, which neither issue nor check tokens (every 20..120 s)
+        if keepalive && gap > 60 * SEC {
+            let mut left = gap;
+            while left > 0 {
+                let step = (r.range(20, 120) * SEC).min(left);
+                sim.run_for(step);
+                left -= step;
+                if left > 0 {
+                    let ci = r.usize(0, clients.len() - 1);
+                    let c = &mut clients[ci];
+                    c.next_tid += 1;
+                    let tid = krpc::tid_bytes(c.next_tid);
+                    let bytes = if r.chance(1, 2) { krpc::query(&tid, "ping", krpc::ping_args(&c.id), &opts) } else { krpc::query(&tid, "find_node", krpc::find_node_args(&c.id, &r.id()), &opts) };
+                    sim.raw_send(c.addr, server_addr, bytes);
+                    keepalives += 1;
+                }
+            }
+        } else {
+            sim.run_for(gap);
+        }
         if !ctx.enabled(i) {
             // keep the timeline, skip the datagram
-            sim.run_for(gap);
             continue;
         }
-        sim.run_for(gap);
         learn(&mut clients, &mut foreign_tokens, sim.now());
         let ci = r.usize(0, clients.len() - 1);
         // most writers look up first (token acquisition), like a real client
@@ -940,7 +979,15 @@ pub fn run(ctx: &RunCtx, flavor: Flavor) -> Report {
                         let nkeys = if flavor == Flavor::C04 { 1 } else { 2 };
                         let ki = r.usize(0, nkeys);
                         let key = &keys[ki];
-                        let si = r.usize(0, if flavor == Flavor::C04 { 1 } else { 3 });
+                        let si = if flavor == Flavor::C04 {
+                            if r.chance(1, 4) {
+                                4
+                            } else {
+                                r.usize(0, 1)
+                            }
+                        } else {
+                            r.usize(0, 4)
+                        };
                         let mut salt = salts[si].clone();
                         let pk = key.verifying_key().to_bytes();
                         let mut target = krpc::mutable_target(&pk, salt.as_deref());
@@ -1146,6 +1193,7 @@ pub fn run(ctx: &RunCtx, flavor: Flavor) -> Report {
         report.probe(k, *v);
     }
     report.probe("requests_consumed", consumed.len() as u64);
+    report.probe("keepalive_pings_and_find_nodes", keepalives);
     report.plan_dump = Some(plan.join("\n"));
     report.sample = Some(json!({"history": plan.iter().take(12).collect::<Vec<_>>(), "consumed": consumed.len()}));
     let _ = Value::Int(0);
